@@ -415,6 +415,20 @@ def bind(ctx):
                       ('target.add_symbol(cnst_syc.Name, _V)', 'constants by CNST_SYC.Name'), ('target.add_symbol(s_ee.Key_Lett, _E)', 'external entities by key letters')):
         r.check(pm.contains(pat, comp), 'mk_component registers ' + what, comp, construct=OOA + 'mk_component', key='register ' + what,
                 msg='mk_component does not register ' + what)
+    # sibling agreement: every element kind is selected through the component filter (only what the component contains is registered)
+    from .common import resolve_locals
+    cps = param_names(comp, skip_self=False)
+    sels = [n for n in ast.walk(comp) if isinstance(n, ast.Call) and call_attr(n) == 'select_many' and isinstance(n.func.value, ast.Name) and n.func.value.id == cps[0]]
+    for n in sels:
+        kind = n.args[0].value if n.args and isinstance(n.args[0], ast.Constant) else src(n.args[0]) if n.args else '?'
+        flt = resolve_locals(comp, n.args[1], pure_only=False) if len(n.args) == 2 and not n.keywords else None
+        ok = isinstance(flt, ast.Lambda) and len(flt.args.args) == 1 and len(cps) > 1 and \
+            any(pm.match('is_contained_in(%s, %s)' % (flt.args.args[0].arg, cps[1]), x) is not None for x in ast.walk(flt.body))
+        r.check(ok, 'mk_component selects %s through the component filter' % kind, n, construct=OOA + 'mk_component', key='filtered ' + str(kind),
+                msg='mk_component selects %s without the component filter (`%s`): elements of every component are registered, and equally named ones '
+                    'overwrite each other in row order' % (kind, src(n)[:70]))
+    r.check(len(sels) >= 6, 'mk_component selects the six element kinds', comp, construct=OOA + 'mk_component', key='select-sites',
+            msg='mk_component has only %d select_many sites on the model' % len(sels))
 
 
 def return_rule(ctx):
